@@ -21,9 +21,12 @@ Proof.
   rewrite IH. unfold nonblank. cbn [filter]. now rewrite E.
 Qed.
 
+Lemma trim_end_rev s : trim_end s = rev (trim_start (rev s)).
+Proof. unfold trim_end, frev. now rewrite <- !rev_alt. Qed.
+
 Lemma nonblank_trim_end s : nonblank (trim_end s) = nonblank s.
 Proof.
-  unfold trim_end. rewrite nonblank_rev, nonblank_trim_start, nonblank_rev.
+  rewrite trim_end_rev. rewrite nonblank_rev, nonblank_trim_start, nonblank_rev.
   apply rev_involutive.
 Qed.
 
@@ -156,7 +159,7 @@ Qed.
 
 Lemma trim_end_cons_nws c r : is_ws c = false -> trim_end (c :: r) = c :: trim_end r.
 Proof.
-  intros H. unfold trim_end. cbn [rev]. rewrite (trim_start_app_nws _ _ H).
+  intros H. rewrite !trim_end_rev. cbn [rev]. rewrite (trim_start_app_nws _ _ H).
   rewrite rev_app_distr. reflexivity.
 Qed.
 
@@ -291,7 +294,7 @@ Qed.
 (* the description never ends in whitespace, the summary is never empty *)
 Lemma trim_end_last s c r : rev (trim_end s) = c :: r -> is_ws c = false.
 Proof.
-  unfold trim_end. rewrite rev_involutive. apply trim_start_head.
+  rewrite trim_end_rev, rev_involutive. apply trim_start_head.
 Qed.
 
 Theorem summary_nonempty docs s : summary (extract docs) = Some s -> s <> [].
